@@ -616,6 +616,7 @@ class Session:
         self.depth = depth
         self.layout = layout
         self.errors = {}
+        self.foreign = None  # another party's project: operands taken from it must be refused
 
     # live sets
     def mods(self):
@@ -857,7 +858,7 @@ class Session:
                 n.val = (v >> 48) & 0xFFFF if f == 4 else (v >> 44) & 0xFFFF
             return "cell"
         if k == "link":
-            call, _ = build_link_request(p, op)
+            call, _ = build_link_request(p, op, foreign=self.foreign)
             call()
             return "link"
         if k == "embed":
@@ -1009,6 +1010,11 @@ def generated_file(spec):
     ops += gen_ops(r, spec.get("n", 25), WEIGHTS_V1 if spec.get("layout", 1) < 2 else None)
     for op in ops:
         s.apply(op)
+    if spec.get("big"):
+        # size swarm at file level: an embedded project of tens of KiB (a VorbisPlayer with data inside a MetaModule)
+        mm = next((m for m in s.mods() if isinstance(m, MetaModule)), None) or s.project.new_module(MetaModule)
+        vp = mm.project.new_module(M.VorbisPlayer)
+        vp.data = bytes(mix(spec["seed"], j) & 0xFF for j in range(97)) * 220
     if spec.get("nest"):
         for m in s.mods():
             if isinstance(m, Sampler) and m.effect is None:
